@@ -260,6 +260,8 @@ func runSize(c c20Size) (msg string, str string) {
 		var unit interface{} = decor.SizeB1024(0)
 		if c.Sys == 1000 {
 			unit = decor.SizeB1000(0)
+		} else if c.Sys == 0 {
+			unit = 0 // plain integers
 		}
 		st := decor.Statistics{Total: c.Tot, Current: c.V}
 		var d decor.Decorator
@@ -273,21 +275,45 @@ func runSize(c c20Size) (msg string, str string) {
 			d = decor.InvertedCurrent(unit, format)
 			st.Total, st.Current = c.Tot, c.Tot-c.V
 		case "counters":
-			d = decor.Counters(unit, format+"#"+format)
+			if format == "" {
+				d = decor.Counters(unit, "") // the documented default pair format: "current / total"
+			} else {
+				d = decor.Counters(unit, format+"#"+format)
+			}
 		}
 		str, _ = d.Decor(st)
 		if c.Via == "counters" {
-			parts := strings.SplitN(str, "#", 2)
+			sep := "#"
+			if format == "" {
+				sep = "/" // the default pair format separates the two with a slash (its exact spacing is not relied on)
+			}
+			parts := strings.SplitN(str, sep, 2)
 			if len(parts) != 2 {
 				return fmt.Sprintf("counters printed %q", str), str
 			}
-			if m := checkSizeString(trimPad(parts[1], format), c.Sys, c.Tot, format); m != "" {
+			if m := checkPlainOrSize(trimPad(parts[1], format), c.Sys, c.Tot, format); m != "" {
 				return "total of counters: " + m, str
 			}
 			str = parts[0]
 		}
 	}
-	return checkSizeString(trimPad(str, format), c.Sys, c.V, format), str
+	return checkPlainOrSize(trimPad(str, format), c.Sys, c.V, format), str
+}
+
+// checkPlainOrSize: with a unit system the text is a size; without one (sys 0)
+// it is the integer itself.
+func checkPlainOrSize(s string, sys int, v int64, format string) string {
+	if sys != 0 {
+		return checkSizeString(s, sys, v, format)
+	}
+	pv, ulp, err := parseNum(s)
+	if err != nil {
+		return fmt.Sprintf("%d printed as %q: %v", v, s, err)
+	}
+	if !within(pv, ulp, new(big.Float).SetPrec(300).SetInt64(v), false) {
+		return fmt.Sprintf("%d printed as %q (format %q): does not read back to the value", v, s, format)
+	}
+	return ""
 }
 
 // trimPad removes the literal tail of formats like "%-12.1f|" and width padding.
@@ -490,10 +516,105 @@ type c20Sample struct {
 }
 
 type c20Ewma struct {
-	Kind    string      `json:"kind"` // speed | eta
+	Kind    string      `json:"kind"` // speed | eta | median | const
 	Wrap    int         `json:"wrap"` // wrapper depth 0..3
-	Via     string      `json:"via"`  // direct | bar
+	Via     string      `json:"via"`  // direct | bar | barset (samples delivered through EwmaSetCurrent)
 	Samples []c20Sample `json:"samples"`
+	// kind const: the public constructors (EwmaETA / EwmaSpeed with their own
+	// estimator of the given age, 0 = default) fed a constant rate
+	Ctor  string  `json:"ctor,omitempty"` // ewmaeta | ewmaspeed
+	Age   float64 `json:"age,omitempty"`
+	PerNs int64   `json:"per_item_ns,omitempty"`
+}
+
+// runConst: whatever the smoothing, an estimator fed one constant rate (every
+// sample, with the time of the zero-progress samples before it carried in,
+// has PerNs nanoseconds per item) estimates that rate.
+func runConst(c c20Ewma) (msg string) {
+	defer func() {
+		if r := recover(); r != nil {
+			msg = fmt.Sprintf("panic in estimator %+v: %v", c, r)
+		}
+	}()
+	var base decor.Decorator
+	if c.Ctor == "ewmaspeed" {
+		base = decor.EwmaSpeed(decor.SizeB1024(0), "% .2f", c.Age)
+	} else {
+		base = decor.EwmaETA(decor.ET_STYLE_GO, c.Age)
+	}
+	d := wrapDeep(base, c.Wrap)
+	const total = int64(1) << 40
+	var cur int64
+	if c.Via == "direct" {
+		for _, s := range c.Samples {
+			base.(decor.EwmaDecorator).EwmaUpdate(s.N, time.Duration(s.D))
+			if s.N > 0 {
+				cur += s.N
+			}
+		}
+	} else {
+		var sig string
+		var undecided bool
+		p := mpb.New(mpb.WithOutput(new(strings.Builder)), mpb.WithWidth(60))
+		bar := p.AddBar(0, mpb.AppendDecorators(d))
+		sig, undecided = callCertified(func() {
+			for _, s := range c.Samples {
+				if s.N > 0 {
+					cur += s.N
+				}
+				if c.Via == "barset" {
+					bar.EwmaSetCurrent(cur, time.Duration(s.D))
+				} else {
+					bar.EwmaIncrInt64(s.N, time.Duration(s.D))
+				}
+			}
+			bar.Abort(true)
+			p.Wait()
+		})
+		if sig != "" {
+			return fmt.Sprintf("certified deadlock while delivering samples %v through a bar (%s): %s", c.Samples, c.Via, sig)
+		}
+		if undecided {
+			return ""
+		}
+	}
+	str, _ := d.Decor(decor.Statistics{Total: total, Current: cur})
+	low := strings.ToLower(str)
+	if strings.Contains(low, "nan") || strings.Contains(low, "inf") {
+		return fmt.Sprintf("printed %q", str)
+	}
+	if c.Ctor == "ewmaspeed" {
+		speed := 1e9 / float64(c.PerNs)
+		if m := checkSizeStringTol(str, 1024, speed, 1e-6); m != "" {
+			return fmt.Sprintf("EwmaSpeed(age %v) after %d samples at a constant %d ns per item: %s", c.Age, len(c.Samples), c.PerNs, m)
+		}
+		return ""
+	}
+	exp := float64(total-cur) * float64(c.PerNs)
+	if exp > float64(c20MaxDur) {
+		return ""
+	}
+	slack := time.Duration(exp * 1e-9) // smoothing arithmetic is floating point
+	if m := checkTimeString(str, int(decor.ET_STYLE_GO), time.Duration(exp)-slack, time.Duration(exp)+slack); m != "" {
+		return fmt.Sprintf("EwmaETA(age %v) after %d samples at a constant %d ns per item, %d items left: %s", c.Age, len(c.Samples), c.PerNs, total-cur, m)
+	}
+	return ""
+}
+
+// checkSizeStringTol: like checkSizeString for a real-valued truth known to a relative tolerance.
+func checkSizeStringTol(s string, sys int, v float64, rel float64) string {
+	lo, hi := int64(math.Floor(v*(1-rel))), int64(math.Ceil(v*(1+rel)))
+	var first string
+	for _, x := range []int64{int64(math.Round(v)), lo, hi} {
+		m := checkSizeString(s, sys, x, "% .2f")
+		if m == "" {
+			return ""
+		}
+		if first == "" {
+			first = m
+		}
+	}
+	return first
 }
 
 func wrapDeep(d decor.Decorator, depth int) decor.Decorator {
@@ -555,7 +676,7 @@ func runMedian(c c20Ewma) (msg string) {
 		}
 		tmp := []float64{win[0], win[1], win[2]}
 		sort.Float64s(tmp)
-		exp := time.Duration((total - current) * int64(math.Round(tmp[1])))
+		exp := time.Duration(math.Round(float64(total-current) * tmp[1]))
 		if exp > c20MaxDur || exp < 0 {
 			continue
 		}
@@ -570,6 +691,9 @@ func runMedian(c c20Ewma) (msg string) {
 func runEwma(c c20Ewma) (msg string) {
 	if c.Kind == "median" {
 		return runMedian(c)
+	}
+	if c.Kind == "const" {
+		return runConst(c)
 	}
 	defer func() {
 		if r := recover(); r != nil {
@@ -591,11 +715,25 @@ func runEwma(c c20Ewma) (msg string) {
 	} else {
 		p := mpb.New(mpb.WithOutput(new(strings.Builder)), mpb.WithWidth(60))
 		bar := p.AddBar(0, mpb.AppendDecorators(d))
-		for _, s := range c.Samples {
-			bar.EwmaIncrInt64(s.N, time.Duration(s.D))
+		sig, undecided := callCertified(func() {
+			var cur int64
+			for _, s := range c.Samples {
+				cur += s.N
+				if c.Via == "barset" && s.N >= 0 && cur >= 0 {
+					bar.EwmaSetCurrent(cur, time.Duration(s.D)) // the sample is the difference to the bar's current
+				} else {
+					bar.EwmaIncrInt64(s.N, time.Duration(s.D))
+				}
+			}
+			bar.Abort(true)
+			p.Wait()
+		})
+		if sig != "" {
+			return fmt.Sprintf("certified deadlock while delivering samples %v through a bar (%s): %s", c.Samples, c.Via, sig)
 		}
-		bar.Abort(true)
-		p.Wait()
+		if undecided {
+			return ""
+		}
 	}
 	got, exp := avg.samples(), expectedAdds(c.Samples)
 	if len(got) != len(exp) {
@@ -765,6 +903,9 @@ func runC20(job common.Job, em *emitter) {
 							tot = v + 7
 						}
 						doSize(c20Size{Sys: sys, V: v, Fmt: rng.PickS("% d", "%.1f", "% .2f", "%d"), Via: via, Tot: tot})
+						// the default format of each decorator, and the variants without a unit
+						doSize(c20Size{Sys: sys, V: v, Fmt: "", Via: via, Tot: tot})
+						doSize(c20Size{Sys: 0, V: v, Fmt: rng.PickS("", "%d", "%5d", "%d"), Via: via, Tot: tot})
 					}
 				}
 				acc.res.Obs["size_lattice_exhaustive"] = 1
@@ -881,7 +1022,24 @@ func runC20(job common.Job, em *emitter) {
 			}
 		case "ewma":
 			for k := 0; k < 400; k++ {
-				c := c20Ewma{Kind: rng.PickS("speed", "eta", "median"), Wrap: rng.Intn(4), Via: rng.PickS("direct", "bar", "bar")}
+				if k%8 == 7 {
+					// public constructors, own estimators, constant rate
+					c := c20Ewma{Kind: "const", Ctor: rng.PickS("ewmaeta", "ewmaspeed"), Wrap: rng.Intn(3), Via: rng.PickS("direct", "bar", "barset"),
+						Age: []float64{0, 0, 30, 1, 7.5, 100}[rng.Intn(6)], PerNs: rng.Pick64(1, 3, 1000, 12345, int64(time.Millisecond))}
+					for i, n := 0, rng.Range(15, 30); i < n; i++ {
+						items := 1 + rng.I64n(1000)
+						d := items * c.PerNs
+						if rng.Chance(1, 4) && d > 1 {
+							d1 := 1 + rng.I64n(d-1)
+							c.Samples = append(c.Samples, c20Sample{N: 0, D: d1})
+							d -= d1
+						}
+						c.Samples = append(c.Samples, c20Sample{N: items, D: d})
+					}
+					doEwma(c)
+					continue
+				}
+				c := c20Ewma{Kind: rng.PickS("speed", "eta", "median"), Wrap: rng.Intn(4), Via: rng.PickS("direct", "bar", "bar", "barset")}
 				n := rng.Range(1, 12)
 				for i := 0; i < n; i++ {
 					s := c20Sample{N: int64(rng.Pick(0, 0, -1, 1, 1, 2, 10, 1<<20, rng.Intn(100000))), D: rng.Pick64(0, 0, 1, 1000, int64(time.Millisecond), rng.I64n(int64(time.Second)))}
